@@ -331,6 +331,9 @@ func init() {
 	lock := func(mode string) intrinsic {
 		return func(x *Exec, s *State, in ssa.Instruction, f *ssa.Function, args []Val) (Val, error) {
 			id := lockID(args[0])
+			if held, isHeld := s.locks[id]; isHeld && id != "?" && id != "lv?" {
+				x.emit(s, "lock", "reacquire:"+x.siteName(s, in), TFalse, fmt.Sprintf("lock(%s) of %s while this goroutine already holds it (%s): self-deadlock", mode, id, held))
+			}
 			if _, held := s.locks[id]; !held && interferenceOn {
 				// other goroutines may have run while the lock was not held: what this lock guards is
 				// unknown again (a value read before the acquisition is stale)
